@@ -11,8 +11,8 @@ ctx = dict(
     methods=['negotiate_deletion', 'destruct_op'],
     enums={'_future_state': 'FS'},
     pre=[
-        (r'(?<![\w>.])deleter_\(this, (\w+)\)', r'EV_deleter(this, \1)'),
-        (r'(\w+)->deleter_\(\1, (\w+)\)', r'EV_deleter(\1, \2)'),
+        (r'(?<![\w>.])deleter_\(this, ([^(),;]+)\)', r'EV_deleter(this, \1)'),
+        (r'(\w+)->deleter_\(\1, ([^(),;]+)\)', r'EV_deleter(\1, \2)'),
         (r'(?<![\w>.])stopSource_\.request_stop\(\)', 'EV_request_stop(this)'),
         (r'(?<![\w>.])evt_\.set\(\)', 'EV_evt_set(this)'),
         (r'(?<![\w>.])evt_\.ready\(\)', 'EV_evt_ready(this)'),
